@@ -570,7 +570,7 @@ func writeEvidence(prop, tier string, seed uint64, plan []planEntry, total int, 
 	os.WriteFile(filepath.Join(verifDir, "evidence", prop+".json"), b, 0o644)
 }
 
-const componentsNote = "real: internal/multiplex, internal/server, internal/server/usermanager (bbolt on disk), internal/client, internal/common, internal/ecdh, cmd/ck-client main() in standalone, shadowsocks-plugin (C20), UDP (C14) and admin mode (-a: C18's admin session through the dispatcher's admin branch) and cmd/ck-server main() (a third of full-traffic: C01, C03, C10): importable copies with net.Listen / net.ListenUDP / the net.Dialer value / log.Fatal / server.Serve hooked; elsewhere the server world calls InitState + Serve as that main() does, uTLS, gorilla/websocket, juju/ratelimit, net/http, logrus. stub: TCP/UDP (simnet), OS clock (synctest bubble), entropy (seeded), CDN edge, proxy applications, redirect web server, the local UDP socket of client.RouteUDP (simnet packet socket behind a type seam). Instrumented (statement-level scheduling points): internal/multiplex, internal/server, internal/server/usermanager, internal/client, internal/common, cmd/ck-client, cmd/ck-server; package-level variables of these packages are re-initialised inside the bubble at the start of every run; everything else runs as atomic steps"
+const componentsNote = "real: internal/multiplex, internal/server, internal/server/usermanager (bbolt on disk), internal/client, internal/common, internal/ecdh, cmd/ck-client main() in standalone, shadowsocks-plugin (C20), UDP (C14) and admin mode (-a: C18's admin session through the dispatcher's admin branch) and cmd/ck-server main() in standalone and shadowsocks-plugin mode (a third of full-traffic: C01, C03, C10): importable copies with net.Listen / net.ListenUDP / the net.Dialer value / log.Fatal / server.Serve hooked; elsewhere the server world calls InitState + Serve as that main() does, uTLS, gorilla/websocket, juju/ratelimit, net/http, logrus. stub: TCP/UDP (simnet), OS clock (synctest bubble), entropy (seeded), CDN edge, proxy applications, redirect web server, the local UDP socket of client.RouteUDP (simnet packet socket behind a type seam). Instrumented (statement-level scheduling points): internal/multiplex, internal/server, internal/server/usermanager, internal/client, internal/common, cmd/ck-client, cmd/ck-server; package-level variables of these packages are re-initialised inside the bubble at the start of every run; everything else runs as atomic steps"
 
 func atoi(s string) int { n, _ := strconv.Atoi(s); return n }
 func atof(s string) float64 {
